@@ -406,7 +406,12 @@ func (t *transpiler) charClass(node *ast.CharClassNode) {
 			t.Buffer.WriteRune('^')
 		}
 
-		for _, element := range internalNodes {
+		for i, element := range internalNodes {
+			if ch, ok := element.(*ast.CharNode); ok && i == 0 && !node.Negated && ch.Value == '^' {
+				// a literal `^` ends up right after `[` when the elements
+				// before it have been moved out of the brackets (`[\W^a]`)
+				t.Buffer.WriteRune('\\')
+			}
 			t.charClassElement(element)
 		}
 
